@@ -13,17 +13,33 @@ SFX = {'create_node': '11create_nodeIJRKiEEEPNS1_10value_nodeIimEEmDpOT_', 'init
 def AA(names, multi=0): return [CUB(multi) + SFX[n] for n in names]
 AA_CORE = AA(['create_node', 'destroy_node', 'adjust_table_size'])
 IB = CUB(0) + SFX['init_bucket']
-US_CBMC = ['--unwind', '9', '--unwindset', 'vp_us_ctor.0:70,' + ','.join('%s.%d:6' % (IB, i) for i in range(6)), '--object-bits', '10']
+US_CBMC = ['--unwind', '11', '--unwindset', 'vp_us_ctor.0:70,' + ','.join('%s.%d:6' % (IB, i) for i in range(6)), '--object-bits', '10']
+def US_UNIT(threads, init_inline=False, multi=0, unroll=2):
+    # core units: init_bucket runs atomically (kept out of line); init units: init_bucket/insert_dummy_node inlined into the thread body.
+    # In both, init_bucket's recursion on the parent is not followed (unrec depth 0): scenarios initialise the parent bucket in the
+    # sequential pre-state and the harness asserts that the recursive call is unreachable.
+    noinl = ATOMIC_CORE + ['17create_dummy_nodeEm'] + ([] if init_inline else ['11init_bucketEm'])
+    aa = AA(['create_node', 'destroy_node', 'adjust_table_size', 'create_dummy_node'] + ([] if init_inline else ['init_bucket']), multi)
+    return dict(wrapper='w_uset.cpp', mode='lcs', unroll=unroll, ptratomics=True, cut=CUT, noinline=noinl, unrec={'11init_bucketEm': 0},
+                allow_atomic=aa, threads=threads, cxxflags=['-DMULTI=%d' % multi])
 UNITS = {
   'sokey': dict(wrapper='w_sokey.cpp', mode='seq', selftest=True, cut=['5localEv']),
-  'us_i_i': dict(wrapper='w_uset.cpp', mode='lcs', unroll=2, ptratomics=True, cut=CUT, noinline=ATOMIC_CORE + ['11init_bucketEm', '17create_dummy_nodeEm'], unrec={'11init_bucketEm': 0},
-                 allow_atomic=AA_CORE + AA(['init_bucket', 'create_dummy_node']), threads={'vp_thr_i': ['a', 'b']}),
+  'us_i_i': US_UNIT({'vp_thr_i': ['a', 'b']}),
+  'us_i_f': US_UNIT({'vp_thr_i': ['a'], 'vp_thr_f': ['b']}),
+  'us_i_t': US_UNIT({'vp_thr_i': ['a'], 'vp_thr_t': ['b']}, unroll=4),
 }
+USD = {'ROUNDS': 1, 'NB': 2, 'NPRE': 2, 'PRE0': 2, 'PRE1': 3}
 HARNESSES = [
   dict(name='sokey_arith', unit='sokey', harness='h_sokey.c', scenarios=[{'PART': p} for p in range(1, 9)], cbmc=['--unwind', '70'],
        desc='split-order key arithmetic', bounds={}),
-  dict(name='uset_ins_2t', unit='us_i_i', harness='h_uset.c', defines={'ROUNDS': 2, 'TA': 'i', 'TB': 'i', 'NB': 2, 'NPRE': 2, 'PRE0': 2, 'PRE1': 3, 'NV': 4, 'ND': 1},
-       scenarios=[{'KA0': 5, 'KB0': 5}], cbmc=US_CBMC, timeout=900,
+  dict(name='uset_ins_2t', unit='us_i_i', harness='h_uset.c', defines=dict(USD, TA='i', TB='i', NV=4, ND=1),
+       scenarios=[{'KA0': 5, 'KB0': 5}, {'KA0': 5, 'KB0': 7}, {'KA0': 5, 'KB0': 5, 'HMODE': 1}, {'KA0': 5, 'KB0': 7, 'HMODE': 1}], cbmc=US_CBMC, timeout=900,
+       desc='', bounds={}),
+  dict(name='uset_find_2t', unit='us_i_f', harness='h_uset.c', defines=dict(USD, TA='i', TB='f', NV=3, ND=1),
+       scenarios=[{'KA0': 5, 'KB0': 5}, {'KA0': 5, 'KB0': 3}], cbmc=US_CBMC, timeout=900,
+       desc='', bounds={}),
+  dict(name='uset_trav_2t', unit='us_i_t', harness='h_uset.c', defines=dict(USD, TA='i', TB='t', NV=3, ND=1, CHECK_ITER=1),
+       scenarios=[{'KA0': 5}], cbmc=US_CBMC, timeout=900,
        desc='', bounds={}),
 ]
 OUTSIDE = []
